@@ -59,6 +59,15 @@ class C04(Check):
         for s in specs:
             s['enablePoll'] = poll
             s['pollinterval'] = rng.choice([0.2, 1.0])
+        for s in specs:
+            for p in s['params']:
+                if p['name'] in ('value', 'status', 'target', 'pollinterval') or p.get('constant') is not None:
+                    continue
+                r = rng.random()
+                if p['readonly'] and r < 0.25:
+                    p['write'] = True          # read-only for clients, with a write method for internal use
+                elif not p['readonly'] and r < 0.1 and not p.get('limits'):
+                    p['cfg_readonly'] = True   # changeable in the class, locked by the configuration
         nclients = rng.choice([1, 1, 2, 3])
         ops = []
         for i in range(rng.randrange(3, 41 if tier == 'thorough' else 25)):
